@@ -99,12 +99,14 @@ def register(reg):
         cond = PObj("Proposition", tag="condition")
         cond.fields["check_constrains_sampling"] = BuiltinFn("check_constrains_sampling", lambda: False)
         pend = PObj(repo_class(f"{R}:PendingRequirement"), tag="pending requirement")
+        req_type = PObj("RequirementType", tag="RequirementType.require")  # a hard `require` on the initial scene
+        req_type.fields.update(constrainsSampling=True, name="require", value="require")
         gb = PDict([("f", plain), ("a", a)])
         if variant == 2:
             gb.set("CanSee", plain)
         cell = PObj("cell", tag="cell")
         cell.fields["cell_contents"] = c
-        pend.fields.update(globalBindings=gb, closureBindings=PDict(), cells=PList([cell]), egoObject=ego, line=3, condition=cond, ty="require", name=None, prob=1, recConfig=None)
+        pend.fields.update(globalBindings=gb, closureBindings=PDict(), cells=PList([cell]), egoObject=ego, line=3, condition=cond, ty=req_type, name=None, prob=1, recConfig=None)
         objs = (samplable("object 0"),)
         scen = PObj("DynamicScenario", tag="scenario")
         scen.fields["objects"] = objs
